@@ -40,11 +40,14 @@ Line(rec, k, clause, why, slot, env) ==
     PrintT(ToJson([id |-> rec.id, v |-> clause, dev |-> "none", call |-> k, why |-> why,
                    slot |-> slot, env |-> env]))
 
-\* CallerMapsUnchanged after event k
+\* CallerMapsUnchanged after event k; a dict that does not hold what its owner put there is
+\* reported at the event that made it so (not again at every later event that leaves it alone)
+StillAsBefore(rec, k, s) ==
+    k > 1 /\ rec.obs[k - 1].maps[s].r = "ok" /\ SameDict(rec.obs[k].maps[s].m, rec.obs[k - 1].maps[s].m)
 MapsClause(rec, k, ob, own) ==
     \A s \in 1..Len(own) :
         IF ob.maps[s].r # "ok" THEN Line(rec, k, "SKIP", "unser", s, 0)
-        ELSE SameDict(ob.maps[s].m, own[s]) \/
+        ELSE SameDict(ob.maps[s].m, own[s]) \/ StillAsBefore(rec, k, s) \/
              Line(rec, k, "hist-map-modified",
                   IF Len(ob.maps[s].m) > Len(own[s]) THEN "entry-added"
                   ELSE IF Len(ob.maps[s].m) < Len(own[s]) THEN "entry-removed" ELSE "entry-changed",
